@@ -273,6 +273,8 @@ def check(rep, F, tier, replay=None):
     ref_size_pass_rule(rep, F)
     from ruleutil import cert_cred_rule
     cert_cred_rule(rep, F)
+    from ruleutil import boot_attr_rule
+    boot_attr_rule(rep, F)
     return rep.finish(
         EXPLANATION,
         ["tables/c18_cert_signers.json transcribes the ledger's required-key rules", "fake witnesses have real sizes (fakes.rs)", "Ed25519KeyHashes de-duplicates (C16)"],
